@@ -128,3 +128,131 @@ theorem parseNonces_ne_panic (l : List (Bytes × Bytes)) : parseNonces l ≠ .pa
         · exact ih
 
 end Pool.Dec
+
+namespace Pool.Dec
+
+/-! ### Go map iteration order does not matter for the outcome class
+
+`ParseRPCBatch` ranges over two Go maps (markets, orders per market) and `ParseRPCSign` over one.  With
+nil-checked parsers no entry can panic, so the result is `ok` exactly when EVERY entry is fine – a
+statement about the set of entries, not their order. -/
+
+theorem parseOrders_ok_iff (cfg : RpcCfg) (dur : Nat) (l : List (Bytes × MatchedOrder)) :
+    parseOrders cfg dur l = .ok () ↔
+      ∀ e ∈ l, hexOK e.1 = true ∧ ∃ durs, parseRPCMatchedOrders cfg e.2 = .ok durs ∧ durs.all (· == dur) = true := by
+  induction l with
+  | nil => simp [parseOrders]
+  | cons a as ih =>
+    obtain ⟨k, mo⟩ := a
+    unfold parseOrders
+    by_cases hk : hexOK k = true
+    · simp only [hk, Bool.not_true, Bool.false_eq_true, if_false]
+      cases hp : parseRPCMatchedOrders cfg mo with
+      | ok durs =>
+        simp only [POut.bind_ok]
+        by_cases hd : durs.all (· == dur) = true
+        · rw [if_pos hd, ih]
+          constructor
+          · intro h e he
+            rcases List.mem_cons.1 he with he | he
+            · subst he; exact ⟨hk, durs, hp, hd⟩
+            · exact h e he
+          · intro h e he; exact h e (List.mem_cons_of_mem _ he)
+        · rw [if_neg hd]
+          constructor
+          · intro h; cases h
+          · intro h
+            obtain ⟨_, d', h1, h2⟩ := h (k, mo) (by simp)
+            rw [hp] at h1; injection h1 with h1; subst h1; exact absurd h2 hd
+      | err e =>
+        simp only [POut.bind_err]
+        constructor
+        · intro h; cases h
+        · intro h
+          obtain ⟨_, d', h1, _⟩ := h (k, mo) (by simp)
+          rw [hp] at h1; cases h1
+      | panic =>
+        simp only [POut.bind_panic]
+        constructor
+        · intro h; cases h
+        · intro h
+          obtain ⟨_, d', h1, _⟩ := h (k, mo) (by simp)
+          rw [hp] at h1; cases h1
+    · simp only [hk, Bool.not_false, if_true]
+      constructor
+      · intro h; cases h
+      · intro h; exact absurd (h (k, mo) (by simp)).1 hk
+
+theorem parseMarkets_ok_iff (cfg : RpcCfg) (l : List (Nat × MatchedMarket)) :
+    parseMarkets cfg l = .ok () ↔ ∀ e ∈ l, parseOrders cfg e.1 e.2.matchedOrders = .ok () := by
+  induction l with
+  | nil => simp [parseMarkets]
+  | cons a as ih =>
+    obtain ⟨d, m⟩ := a
+    unfold parseMarkets
+    cases hp : parseOrders cfg d m.matchedOrders with
+    | ok u =>
+      cases u
+      simp only [POut.bind_ok]
+      rw [ih]
+      constructor
+      · intro h e he
+        rcases List.mem_cons.1 he with he | he
+        · subst he; exact hp
+        · exact h e he
+      · intro h e he; exact h e (List.mem_cons_of_mem _ he)
+    | err e =>
+      simp only [POut.bind_err]
+      constructor
+      · intro h; cases h
+      · intro h; have := h (d, m) (by simp); rw [hp] at this; cases this
+    | panic =>
+      simp only [POut.bind_panic]
+      constructor
+      · intro h; cases h
+      · intro h; have := h (d, m) (by simp); rw [hp] at this; cases this
+
+theorem parseNonces_ok_iff (l : List (Bytes × Bytes)) :
+    parseNonces l = .ok () ↔ ∀ e ∈ l, e.1.length = 66 ∧ e.2.length = 66 ∧ hexOK e.1 = true := by
+  induction l with
+  | nil => simp [parseNonces]
+  | cons a as ih =>
+    obtain ⟨k, n⟩ := a
+    unfold parseNonces
+    by_cases h1 : k.length = 66
+    · by_cases h2 : n.length = 66
+      · by_cases h3 : hexOK k = true
+        · simp only [h1, h2, h3, ne_eq, not_true_eq_false, if_false, Bool.not_true, Bool.false_eq_true]
+          rw [ih]
+          constructor
+          · intro h e he
+            rcases List.mem_cons.1 he with he | he
+            · subst he; exact ⟨h1, h2, h3⟩
+            · exact h e he
+          · intro h e he; exact h e (List.mem_cons_of_mem _ he)
+        · simp only [h1, h2, h3, ne_eq, not_true_eq_false, if_false, Bool.not_false, if_true]
+          constructor
+          · intro h; cases h
+          · intro h; exact absurd (h (k, n) (by simp)).2.2 h3
+      · simp only [h1, h2, ne_eq, not_true_eq_false, if_false, not_false_eq_true, if_true]
+        constructor
+        · intro h; cases h
+        · intro h; exact absurd (h (k, n) (by simp)).2.1 h2
+    · simp only [h1, ne_eq, not_false_eq_true, if_true]
+      constructor
+      · intro h; cases h
+      · intro h; exact absurd (h (k, n) (by simp)).1 h1
+
+/-- outcome class of a never-panicking unit parser is decided by "is it ok" -/
+theorem cls_eq_of_ok_iff {x y : POut Unit} (hx : x ≠ .panic) (hy : y ≠ .panic) (h : x = .ok () ↔ y = .ok ()) :
+    x.cls = y.cls := by
+  cases x with
+  | ok u => cases u; rw [h.1 rfl]
+  | panic => exact absurd rfl hx
+  | err e =>
+    cases y with
+    | ok u => cases u; have := h.2 rfl; cases this
+    | err e' => rfl
+    | panic => exact absurd rfl hy
+
+end Pool.Dec
